@@ -50,6 +50,10 @@ pub fn run(out: &mut Out, seed: u64, tier: &str) {
             if g.min_distance() >= 0.6 { mols.push(g); }
         }
     }
+    // exactly linear molecules, many orientations each (one random rotation per molecule is drawn in the loop below)
+    for zs in [vec![8usize, 6, 8], vec![1, 6, 7], vec![1, 6, 6, 1], vec![16, 6, 16], vec![9, 4, 9], vec![17, 80, 17]] {
+        for _ in 0..(if tier == "thorough" { 120 } else { 25 }) { mols.push(linear_chain(&zs, rng.range(0.9, 1.1))); }
+    }
     let (mut n, mut skipped, mut worst_e, mut worst_f, mut worst_t, mut worst_cov) = (0usize, 0usize, 0.0f64, 0.0f64, 0.0f64, 0.0f64);
     for m in mols.iter() {
         if m.n() > 24 || m.n() == 0 || m.min_distance() < 0.5 { continue; }
@@ -76,6 +80,15 @@ pub fn run(out: &mut Out, seed: u64, tier: &str) {
                     let only1: Vec<&String> = s1.iter().filter(|x| !s2.contains(x)).take(6).collect();
                     let only2: Vec<&String> = s2.iter().filter(|x| !s1.contains(x)).take(6).collect();
                     out.oracle_fail(&format!("{}: the force field built from the moved structure has different terms: only before {:?}, only after {:?}", kind, only1, only2), &replay);
+                    continue;
+                }
+            }
+            // finite before, finite after: a rigid motion must not turn a finite energy or gradient into NaN/inf (exactly linear
+            // centres are where rounding decides the sign of a radicand)
+            {
+                let (em, gm) = (f1.energy(&mol2.coordinates), f1.gradient(&mol2.coordinates));
+                if !em.is_finite() || !gm.iter().all(|v| v.is_finite()) {
+                    out.oracle_fail(&format!("{}: energy and gradient are finite for the structure as given but not after a rigid motion (energy {}, gradient finite: {})", kind, em, gm.iter().all(|v| v.is_finite())), &replay);
                     continue;
                 }
             }
